@@ -56,7 +56,7 @@ class SchedOpts:
         o = cls(
             preempt_p=rng.choice([0.0, 0.005, 0.02, 0.05, 0.15]),
             timer_p=rng.choice([0.0, 0.0, 0.02, 0.1, 0.3]),
-            policy=rng.choice(['random', 'sticky', 'sticky']),
+            policy=rng.choice(['random', 'sticky', 'sticky', 'pct']),
             sticky_p=rng.choice([0.05, 0.2, 0.5]),
         )
         for k, v in kw.items():
